@@ -1256,6 +1256,22 @@ class Interp:
         return z3.If(t2 < 0, 0, z3.If(t2 > n_, n_, t2))
 
     def e_ListComp(self, n):
+        # pure filter over an abstract sequence  [x for x in seq if cond(x)]: the result is SOME subsequence - a
+        # fresh abstract sequence that is no longer than the source (sound over-approximation: the filter condition
+        # itself is not interpreted; it must be a call-free expression)
+        if len(n.generators) == 1 and isinstance(n.elt, ast.Name) and isinstance(n.generators[0].target, ast.Name) \
+                and n.elt.id == n.generators[0].target.id and not n.generators[0].is_async:
+            src = self.force(self.eval(n.generators[0].iter))
+            if src.tag == "list" and isinstance(self.container(src.ref), LSeq) and not any(
+                    isinstance(x, (ast.Call, ast.Await, ast.NamedExpr)) for c in n.generators[0].ifs
+                    for x in ast.walk(c)):
+                c = self.container(src.ref)
+                nm = self.fresh_name("filtered")
+                ref = Ref(nm)
+                t = z3.Const(nm, c.term.sort())
+                self.ctx.assume(z3.Length(t) <= z3.Length(c.term))
+                self.heap.data[(ref, "$")] = LSeq(t, c.elem)
+                return VList(ref)
         return self.new_list(self._comp(n))
 
     def e_GeneratorExp(self, n):
